@@ -26,7 +26,7 @@ RULE = (
     "non-trivial = the history has >=1 rejection after >=1 acceptance and >=1 overflow of the memory; distinct = distinct operation sequence"
 )
 ASSUMPTIONS = [
-    "numerical clauses (matrix equality 1e-8*|B|, eigenvalue>0, secant 1e-8) judged only while the dense reference is well conditioned (cond<=1e8, theta in [1e-8,1e8]); exact clauses always; gated steps counted",
+    "numerical clauses (matrix equality, eigenvalue>0, secant, bmv) judged only where every source of amplification is <= 1e6 (cond of the dense B, cond of the compact middle matrix, every pair's y.y/s.y in [1e-6,1e6], cancellation in s.y <= 1e-10) with tolerance max(1e-8, 1e3*eps*cond); exact clauses (count, memory content, accept/reject, untouched-on-reject) always; gated steps counted",
     "for candidates whose curvature test is dominated by rounding noise the accept/reject decision is observed, not predicted",
 ]
 EPS = 2.220446049250313e-16
@@ -42,6 +42,34 @@ def mats_snapshot(mats):
 
 def mats_same(a, b):
     return all(np.array_equal(a[k], b[k]) for k in a)
+
+
+def regime(S, Y, n):
+    """Is the history in the regime where floating point can represent its BFGS matrix to ~1e-7?
+    Returns (ok, theta, B_dense, cond_middle, tol).  Conservative on purpose: numerical clauses are judged
+    only where every source of amplification is <= 1e6 (the exact clauses are judged everywhere)."""
+    sy = [float(s_ @ y_) for s_, y_ in zip(S, Y)]
+    if not all(v > 0 for v in sy):
+        return False, None, None, None, None
+    thetas = [float(y_ @ y_) / v for y_, v in zip(Y, sy)]
+    if not all(1e-6 <= t <= 1e6 for t in thetas):
+        return False, None, None, None, None
+    canc = max(EPS * float(np.linalg.norm(s_) * np.linalg.norm(y_)) / v for s_, y_, v in zip(S, Y, sy))
+    if canc > 1e-10:
+        return False, None, None, None, None
+    theta = thetas[-1]
+    Bd = dense_bfgs_B(S, Y, theta, n)
+    ev = np.linalg.eigvalsh(0.5 * (Bd + Bd.T))
+    if ev.min() <= 0 or ev.max() / ev.min() > 1e6:
+        return False, None, None, None, None
+    Sm, Ym = np.array(S).T, np.array(Y).T
+    SY = Sm.T @ Ym
+    invM_ref = np.block([[-np.diag(np.diag(SY)), np.tril(SY, -1).T], [np.tril(SY, -1), theta * (Sm.T @ Sm)]])
+    cM = float(np.linalg.cond(invM_ref))
+    if not np.isfinite(cM) or cM > 1e6:
+        return False, None, None, None, None
+    tol = max(1e-8, 1e3 * EPS * cM, 1e3 * canc)
+    return True, theta, Bd, (cM, invM_ref), tol
 
 
 class Sim:
@@ -93,11 +121,7 @@ class Sim:
             S = [mX[i + 1] - mX[i] for i in range(len(mX) - 1)]
             Y = [mG[i + 1] - mG[i] for i in range(len(mG) - 1)]
             th = float(Y[-1] @ Y[-1]) / float(S[-1] @ Y[-1]) if float(S[-1] @ Y[-1]) != 0 else np.inf
-            ok_regime = all(float(s_ @ y_) > 0 and 1e-8 <= float(y_ @ y_) / float(s_ @ y_) <= 1e8 for s_, y_ in zip(S, Y))
-            if ok_regime:
-                Bd = dense_bfgs_B(S, Y, th, self.n)
-                ev = np.linalg.eigvalsh(0.5 * (Bd + Bd.T))
-                ok_regime = ev.min() > 0 and ev.max() / ev.min() <= 1e8
+            ok_regime = regime(S, Y, self.n)[0]
             if ok_regime:
                 raise Violation("update-raises", f"update_lbfgs_matrices raised {type(e).__name__}: {e} on a well-conditioned history ({len(S)} pairs, theta={th:.3e})")
             self.dead = True
@@ -152,40 +176,13 @@ class Sim:
         s_new, y_new = S[-1], Y[-1]
         theta_ref = float(y_new @ y_new) / float(s_new @ y_new)
         require(abs(self.mats.theta - theta_ref) <= 1e-12 * abs(theta_ref), "theta-of-newest-pair", f"theta={self.mats.theta!r} vs y.y/s.y={theta_ref!r}")
-        thetas = [float(y @ y) / float(s @ y) for s, y in zip(S, Y)]
-        if not all(1e-8 <= t <= 1e8 for t in thetas):
+        ok, _, Bd, cm, tolB = regime(S, Y, n)
+        if not ok:
             self.gated += 1
             if stats is not None:
                 stats.bump("steps-gated(ill-conditioned)")
             return
-        Bd = dense_bfgs_B(S, Y, theta_ref, n)
-        ev = np.linalg.eigvalsh(0.5 * (Bd + Bd.T))
-        if ev.min() <= 0 or ev.max() / ev.min() > 1e8:
-            self.gated += 1
-            if stats is not None:
-                stats.bump("steps-gated(ill-conditioned)")
-            return
-        # conditioning of the compact representation itself (middle matrix of eq. 3.4 built by the
-        # harness from the model pairs): with dependent pairs (m > n, parallel steps) it loses digits
-        # although B is well conditioned -- the comparison tolerance follows it, beyond 1e10 it is gated
-        Sm, Ym = np.array(S).T, np.array(Y).T
-        SY = Sm.T @ Ym
-        invM_ref = np.block([[-np.diag(np.diag(SY)), np.tril(SY, -1).T], [np.tril(SY, -1), theta_ref * (Sm.T @ Sm)]])
-        cM = float(np.linalg.cond(invM_ref))
-        if not np.isfinite(cM) or cM > 1e10:
-            self.gated += 1
-            if stats is not None:
-                stats.bump("steps-gated(ill-conditioned)")
-            return
-        # cancellation inside s.y itself (nearly orthogonal pairs accepted on rounding noise): the
-        # dense recursion and the compact form divide by differently rounded values of it
-        canc = max(EPS * float(np.linalg.norm(s_) * np.linalg.norm(y_)) / float(s_ @ y_) for s_, y_ in zip(S, Y))
-        if canc > 1e-5:
-            self.gated += 1
-            if stats is not None:
-                stats.bump("steps-gated(ill-conditioned)")
-            return
-        tolB = max(1e-8, 1e3 * EPS * cM, 1e2 * canc)
+        cM, invM_ref = cm
         Bc = compact_B_from_mats(self.mats, n)
         nb = float(np.linalg.norm(Bd, 2))
         dev = float(np.max(np.abs(Bc - Bd))) / nb
@@ -193,7 +190,7 @@ class Sim:
             stats.maxi("max_compact_vs_dense_dev_over_tol", dev / tolB)
             stats.bump("steps-with-numerical-clauses-judged")
         require(dev <= tolB, "compact-form-equals-dense-bfgs", f"max|B_compact - B_dense|/|B| = {dev:.3e} (tol {tolB:.1e}) with {len(S)} pairs")
-        require(float(np.max(np.abs(Bc - Bc.T))) <= 1e-10 * nb, "symmetric", "B_compact not symmetric")
+        require(float(np.max(np.abs(Bc - Bc.T))) <= tolB * nb, "symmetric", "B_compact not symmetric")
         evc = np.linalg.eigvalsh(0.5 * (Bc + Bc.T))
         require(evc.min() > 0, "positive-definite", f"smallest eigenvalue {evc.min():.3e}")
         sec = float(np.max(np.abs(Bc @ s_new - y_new)))
@@ -370,18 +367,13 @@ def intercepted_body(pspec, stats):
         if not (np.array_equal(np.asarray(mats.S), np.array(S).T) and np.array_equal(np.asarray(mats.Y), np.array(Y).T)):
             # legitimately stale only if this call rejected the candidate AND the memory did not change since the matrices were built
             raise Violation("matrix-uses-stored-pairs", f"[in-run] call {k}: matrices do not describe the stored pairs")
-        theta = float(Y[-1] @ Y[-1]) / float(S[-1] @ Y[-1])
-        if not all(1e-8 <= float(y_ @ y_) / float(s_ @ y_) <= 1e8 for s_, y_ in zip(S, Y)):
-            stats.bump("steps-gated(ill-conditioned)")
-            continue
-        Bd = dense_bfgs_B(S, Y, theta, n)
-        ev = np.linalg.eigvalsh(0.5 * (Bd + Bd.T))
-        if ev.min() <= 0 or ev.max() / ev.min() > 1e8:
+        ok, theta, Bd, cm, tolB = regime(S, Y, n)
+        if not ok:
             stats.bump("steps-gated(ill-conditioned)")
             continue
         Bc = compact_B_from_mats(mats, n)
         dev = float(np.max(np.abs(Bc - Bd))) / float(np.linalg.norm(Bd, 2))
-        require(dev <= 1e-8, "compact-form-equals-dense-bfgs", f"[in-run] call {k}: rel dev {dev:.3e}")
+        require(dev <= tolB, "compact-form-equals-dense-bfgs", f"[in-run] call {k}: rel dev {dev:.3e} (tol {tolB:.1e})")
         require(np.linalg.eigvalsh(0.5 * (Bc + Bc.T)).min() > 0, "positive-definite", f"[in-run] call {k}")
         stats.case({"X": [x.tolist() for x in Xa], "G": [g.tolist() for g in Ga]}, len(S) >= 2, ["src=in-run" + ("-redefinition" if "switch" in pspec else ""), f"pairs={min(len(S), 3)}"],
                    sample={"from_run": pspec["problem"]["obj"]["family"], "call": k, "pairs": len(S), "theta": theta})
